@@ -143,6 +143,43 @@ def _tick_is_abs(pv, t):
     return is_call(t, "abs") and is_param(t[2][0], "tick")
 
 
+def passed_to_ladders(facts, tm, dispatch, param):
+    """What the dispatch hands each ladder: {callee last name: "tick" | "abs" | None}. The negative ladder works on |tick|; whether
+    the magnitude is taken by the dispatch or inside the ladder is the same computation."""
+    d = facts.fn(tm + dispatch)
+    out = {}
+    if d is None:
+        return out
+    pv = prov_of(d)
+    for b, t in d.calls():
+        last = (callee_path(t) or "").rsplit("::", 1)[-1]
+        if not last.startswith("get_sqrt_price_") or not t["a"]:
+            continue
+        a = strip(pv.operand(t["a"][0], b, len(d.blocks[b]["s"])))
+        how = "tick" if is_param(a, param) else ("abs" if is_call(a, "abs") and is_param(strip(a)[2][0], param) else None)
+        out[last] = how if out.get(last, how) == how else None
+    return out
+
+
+def tick_magnitude(passed, pname="tick"):
+    """Term test for the value a ladder masks, given what the dispatch passed ("tick" / "abs")."""
+    def test(pv, t):
+        t = strip(t)
+        inner_abs = _tick_is_abs(pv, t) if pname == "tick" else False
+        if not inner_abs:
+            if t[0] == "var":
+                ds = pv.var_defs(t[2])
+                inner_abs = len(ds) == 1 and is_call(ds[0][2], "abs") and strip(ds[0][2])[2][0][0] == "param"
+            else:
+                inner_abs = is_call(t, "abs") and strip(t)[2][0][0] == "param"
+        if passed == "abs":
+            return inner_abs or t[0] == "param"
+        if passed == "tick":
+            return inner_abs
+        return False
+    return test
+
+
 def _fold(ladder, positive, tick):
     init, steps, shift = ladder
     a = abs(tick)
@@ -172,12 +209,14 @@ def R1_R2_ladders(run):
         dc = decided(ats[0], lambda t: is_param(t, "tick"), ("Ge", "Gt"))
         ok = dc is not None and const_val(dc[2]) == 0
         if ok:
-            tcalls = {callee_path(t) for b, t in d.calls() if b in cfg.reach(d, dc[3][0]) - cfg.reach(d, dc[4][0])}
-            fcalls = {callee_path(t) for b, t in d.calls() if b in cfg.reach(d, dc[4][0]) - cfg.reach(d, dc[3][0])}
+            own = lambda t: (callee_path(t) or "").rsplit("::", 1)[-1] != "abs"
+            tcalls = {callee_path(t) for b, t in d.calls() if b in cfg.reach(d, dc[3][0]) - cfg.reach(d, dc[4][0]) and own(t)}
+            fcalls = {callee_path(t) for b, t in d.calls() if b in cfg.reach(d, dc[4][0]) - cfg.reach(d, dc[3][0]) and own(t)}
             ok = tcalls == {TM + "get_sqrt_price_positive_tick"} and fcalls == {TM + "get_sqrt_price_negative_tick"}
-            pv = prov_of(d)
-            for b, t in d.calls():
-                ok = ok and is_param(pv.operand(t["a"][0], b, len(d.blocks[b]["s"])), "tick")
+            passed = passed_to_ladders(facts, TM, "sqrt_price_from_tick_index", "tick")
+            # the non-negative side passes tick (|tick| is the same value there); the negative side passes tick or |tick| (the ladder
+            # check below then requires the magnitude to be taken exactly once, here or inside)
+            ok = ok and passed.get("get_sqrt_price_positive_tick") in ("tick", "abs") and passed.get("get_sqrt_price_negative_tick") in ("tick", "abs")
     run.check("R1", "dispatch", ok, "sqrt_price_from_tick_index is not `if tick >= 0 { positive(tick) } else { negative(tick) }`", loc=d.loc(), detail="tick >= 0 => positive ladder, else negative ladder")
     ms = facts.need_fn(TM + "mul_shift_96")
     run.touch(ms)
@@ -191,8 +230,9 @@ def R1_R2_ladders(run):
             m = strip(s[2][0])
             ok = m[0] == "call" and m[1].endswith("mul_u256") and {x[1] for x in map(strip, m[2]) if x[0] == "param"} == {"n0", "n1"}
     run.check("R1", "mul_shift_96", ok, "mul_shift_96 is not mul_u256(n0, n1).shift_right(96).try_into_u128().unwrap()", loc=ms.loc(), detail="(n0 * n1) >> 96 over 256 bits")
+    passed = passed_to_ladders(facts, TM, "sqrt_price_from_tick_index", "tick")
     pos = _ladder(run, "get_sqrt_price_positive_tick", _tick_is_param)
-    neg = _ladder(run, "get_sqrt_price_negative_tick", _tick_is_abs)
+    neg = _ladder(run, "get_sqrt_price_negative_tick", tick_magnitude(passed.get("get_sqrt_price_negative_tick")))
     band = Decimal(2) ** -31
     worst = Decimal(0)
     n = 0
@@ -247,8 +287,12 @@ def R3_inverse(run):
               detail="rel err 2^%.1f" % float(rel.ln() / Decimal(2).ln()))
     need = logb2 / (Decimal(2) ** p)
     u, l = Decimal(up) / 2 ** 64, Decimal(lo) / 2 ** 64
-    run.check("R3", "upper-margin", u >= need * (1 - Decimal(2) ** -10), "upper margin %.5f tick is below the %d-bit truncation error %.5f tick: a boundary price whose log2 is underestimated by the full error maps to the tick below" % (u, p, need),
-              detail="%.5f >= %.5f" % (u, need))
+    # the margin has to cover the full truncation error of the p-bit log2 (need) plus what the fixed-point steps lose on top of it:
+    # LOG_B_2_X32 is cut to 32 fractional bits and multiplies a log2 of magnitude <= 64 (64 * 2^-32 tick), and each of the p
+    # squarings drops bits below 2^-63; 2^-24 tick bounds both. A margin re-derived as exactly LOG_B_2_X32 >> p sits below `need`.
+    slack = Decimal(2) ** -24
+    run.check("R3", "upper-margin", u >= need + slack, "upper margin %.7f tick does not exceed the %d-bit truncation error %.7f tick by the fixed-point slack 2^-24: a boundary price whose log2 is underestimated by the full error maps to the tick below" % (u, p, need),
+              detail="%.5f >= %.5f + 2^-24" % (u, need))
     run.check("R3", "lower-margin", l >= 0 and u + l < 1, "margins (%.5f, %.5f) must be non-negative and sum below one tick so that the true tick is one of two adjacent candidates" % (l, u), detail="0 <= %.5f; sum %.5f < 1" % (l, u + l))
     check_inverse(run, facts, TM, "tick_index_from_sqrt_price", "sqrt_price_from_tick_index", ("sqrt_price_x64", "sqrt_price_x64"))
 
